@@ -246,6 +246,53 @@ pub fn run(rep: &mut Report, backend: Bk, thorough: bool) {
         }
     }
 
+    // the member a Remove commit names is a receiver too: it leaves the group iff the author is an admin
+    for (srole, sname) in &sender_roles {
+        if *srole == "removed-member-stale-state" {
+            continue;
+        }
+        let s = idle(sname);
+        let content = CommitContent::Remove("V".into());
+        let Ok(ev) = raw_commit(&s, &gid, &content, &pk_of, Some(&d_kp), now_ts - 5) else {
+            rep.outcome(&format!("not-buildable:{srole}:remove-target"));
+            continue;
+        };
+        let r = idle("V");
+        let before = r.group_obs(&gid).map(|o| o.record_state.clone()).unwrap_or_default();
+        let before_full = r.group_obs(&gid).map(|mut o| { o.messages.clear(); serde_json::to_string(&o).unwrap_or_default() });
+        let res = std::panic::catch_unwind(std::panic::AssertUnwindSafe(|| r.process(&ev)));
+        let rk = match &res {
+            Ok(x) => result_kind(x),
+            Err(_) => "PANIC".into(),
+        };
+        let after = r.group_obs(&gid).map(|o| o.record_state.clone()).unwrap_or_default();
+        let after_full = r.group_obs(&gid).map(|mut o| { o.messages.clear(); serde_json::to_string(&o).unwrap_or_default() });
+        let left = before == "active" && after != "active";
+        rep.case(&format!("recv-target|{srole}|{rk}|{after}"));
+        rep.outcome(&format!("recv-target:{srole}:{}", if left { "left" } else { "stayed" }));
+        let is_admin = *srole == "admin";
+        let mut bad = Vec::new();
+        if rk == "PANIC" {
+            bad.push("panic");
+        }
+        if left && !is_admin {
+            bad.push("unauthorised-commit-accepted");
+        }
+        if !left && is_admin {
+            bad.push("authorised-commit-refused");
+        }
+        if !left && before_full != after_full {
+            bad.push("refused-commit-changed-state");
+        }
+        for b in bad {
+            rep.finding(
+                format!("C05|{b}|sender={srole}|content=Remove(receiver)|receiver=target-of-the-removal"),
+                format!("{srole} {sname} sends a Remove commit naming V; V itself answers {rk} and its group is {after}: {b}"),
+                json!({"result": rk, "before": before, "after": after}),
+            );
+        }
+    }
+
     // stand-alone proposals never take effect by themselves
     let props: Vec<(&str, &str, ProposalContent)> = vec![
         ("non-admin", "M", ProposalContent::Add),
